@@ -179,6 +179,10 @@ def run_filter(case):
     if not (zk == "float0" and memk == "none" and ctor == "list"):
       kw["zero"] = zero           # otherwise exercise the documented default 0.0
     out = filt(as_input(xk, x), **kw)
+    if memk in ("exact", "longer") and (len(bd) + order + L) % 2 == 0:
+      # the memory is what was handed over AT THE CALL: recycling the list afterwards (before the
+      # result is first read) must not change the output
+      mem_arg[:] = [sym("recycled%d" % i_) for i_ in range(len(mem_arg))][::-1]
     if not isinstance(out, Stream):
       return bad("filter:type", "filter call must return a Stream", "Stream", type(out).__name__)
     got = list(out)
